@@ -91,8 +91,10 @@ def blockquote(state: StateBlock, startLine: int, endLine: int, silent: bool) ->
         pos += 1
 
     oldBSCount = [state.bsCount[startLine]]
+    # columns are counted from the start of the physical line: add the offset
+    # already consumed by an enclosing block quote
     state.bsCount[startLine] = (
-        state.sCount[startLine] + 1 + (1 if spaceAfterMarker else 0)
+        oldBSCount[0] + state.sCount[startLine] + 1 + (1 if spaceAfterMarker else 0)
     )
 
     lastLineEmpty = pos >= max
@@ -216,7 +218,10 @@ def blockquote(state: StateBlock, startLine: int, endLine: int, silent: bool) ->
 
             oldBSCount.append(state.bsCount[nextLine])
             state.bsCount[nextLine] = (
-                state.sCount[nextLine] + 1 + (1 if spaceAfterMarker else 0)
+                oldBSCount[-1]
+                + state.sCount[nextLine]
+                + 1
+                + (1 if spaceAfterMarker else 0)
             )
 
             oldSCount.append(state.sCount[nextLine])
